@@ -72,7 +72,10 @@ def is_facebook_post_url(url):
 
 
 def is_facebook_link(url):
-    splitted = safe_urlsplit(url)
+    try:
+        splitted = safe_urlsplit(url)
+    except ValueError:
+        return False
 
     if not splitted.hostname or ".facebook." not in splitted.hostname:
         return False
@@ -101,13 +104,18 @@ def convert_facebook_url_to_mobile(url):
 
     has_protocol = safe_url == url
 
-    scheme, netloc, path, query, fragment = urlsplit(safe_url)
+    try:
+        splitted = urlsplit(safe_url)
+    except ValueError:
+        splitted = None
 
-    if "facebook" not in netloc:
+    if splitted is None or "facebook" not in splitted.netloc:
         raise TypeError(
             "ural.facebook.convert_facebook_url_to_mobile: %s is not a facebook url"
             % url
         )
+
+    scheme, netloc, path, query, fragment = splitted
 
     netloc = re.sub(MOBILE_REPLACE_RE, "m.facebook.", netloc)
 
@@ -302,12 +310,18 @@ def parse_facebook_url(url, allow_relative_urls=False):
         and not url.startswith("https://")
         and "facebook." not in url
     ):
-        url = urljoin(BASE_FACEBOOK_URL, url)
+        try:
+            url = urljoin(BASE_FACEBOOK_URL, url)
+        except ValueError:
+            return None
     else:
         if not is_facebook_url(url):
             return None
 
-    splitted = safe_urlsplit(url)
+    try:
+        splitted = safe_urlsplit(url)
+    except ValueError:
+        return None
 
     if not splitted.path or splitted.path == "/":
         return None
